@@ -2,11 +2,16 @@
 
 package rosmar
 
-import "sync"
+import (
+	"sync"
+
+	sqlite3 "github.com/mattn/go-sqlite3"
+)
 
 // No-op counterparts of the simulation seams in verif_on.go.
 
-func verifLock(*sync.Mutex, string)    {}
-func verifPoint(string, string)        {}
-func verifNote(string, string, uint64) {}
-func verifFault(string) error          { return nil }
+func verifLock(*sync.Mutex, string)          {}
+func verifPoint(string, string)              {}
+func verifNote(string, string, uint64)       {}
+func verifFault(string) error                { return nil }
+func verifConnect(*sqlite3.SQLiteConn) error { return nil }
